@@ -256,7 +256,8 @@ Theorem restart_equiv_wrong_height_refuted :
   ∃ s hd ops, after_commit_ok s ∧ strace (restart s) (SBegin hd :: ops) ≠ strace s (SBegin hd :: ops).
 Proof.
   exists s3, (ex_hd 9), [SEnd]. split; [exact (proj1 after_commit_ok_ex)|].
-  intros H. cbn [strace sobserve sstep] in H. injection H as _ H. revert H. vm_compute. discriminate.
+  intros H. apply (f_equal (λ l : list sobs, match l with [_; OEnd r] => Some r | _ => None end)) in H.
+  revert H. vm_compute. discriminate.
 Qed.
 Print Assumptions restart_equiv_wrong_height_refuted.
 
